@@ -59,12 +59,12 @@ EXN = {"DataError": 1, "BufferEmptyError": 2, "CommError": 3, "RequestError": 4,
 SOURCE_PINS = {
     "LogixDriver.read": "fc4f96cd18e0",
     "LogixDriver._read_build_requests": "833e11ad454c",
-    "LogixDriver._read_build_multi_requests": "4fa7d22a9699",
-    "LogixDriver._read_build_single_request": "3dbb48e7f7fb",
+    "LogixDriver._read_build_multi_requests": "acf02a651f36",
+    "LogixDriver._read_build_single_request": "4eed28af0e39",
     "LogixDriver.write": "39522f9a09a0",
     "LogixDriver._write_build_requests": "117a96ec91bb",
-    "LogixDriver._write_build_multi_requests": "748b5fc21672",
-    "LogixDriver._write_build_single_request": "4ec7698c3059",
+    "LogixDriver._write_build_multi_requests": "f294be7cfc3a",
+    "LogixDriver._write_build_single_request": "49946c9afb30",
     "LogixDriver.get_tag_info": "b44930a208c5",
     "LogixDriver._get_tag_info": "d7fa07ff141d",
     "LogixDriver._parse_requested_tags": "c82191554b1d",
@@ -74,8 +74,8 @@ SOURCE_PINS = {
     "pycomm3/logix_driver.py._tag_return_size": "fc7d5b9c6fb3",
     "pycomm3/util.py.strip_array": "80be2f43560d",
     "pycomm3/util.py.get_array_index": "8475c7d1685c",
-    "ReadModifyWriteRequestPacket.__init__": "8549f74275bd",
-    "ReadModifyWriteRequestPacket.set_bit": "0cbb2eaeef36",
+    "ReadModifyWriteRequestPacket.__init__": "871b37e3cc06",
+    "ReadModifyWriteRequestPacket.set_bit": "2c6cd171c187",
     "ReadModifyWriteRequestPacket._setup_message": "20c066b48f1a",
     "Tag.__bool__": "ae817346868c"
 }
@@ -709,14 +709,14 @@ def gen_read_list(rng, ctx, n, with_defects):
              ("malformed", rng.choice(nm) + "..q"), ("malformed", ""), ("malformed", rng.choice(nm) + "{1}{2}"),
              ("non-string", rng.choice([5, None, b"ab", 1.5]))]
     if with_defects:
-        pool += [("defect", rng.choice(nm) + rng.choice(["[", "[x]", "[]", "[1", "{-1}", "{70000}", "[-1]", "[4294967296]"]))]
+        pool += [("malformed-index-or-count", rng.choice(nm) + rng.choice(["[", "[x]", "[]", "[1", "{-1}", "{70000}", "[-1]", "[4294967296]"]))]
     picks = [rng.choice(pool) for _ in range(n)]
     if n >= 2 and rng.random() < 0.4:
         picks[rng.randrange(n)] = picks[rng.randrange(n)]            # a duplicate
     reqs = [r for _, r in picks]
     invalid = {}
     for k, (cls, r) in enumerate(picks):
-        if cls in ("valid", "defect"):
+        if cls == "valid":
             continue
         if not isinstance(r, str) or cls in ("malformed", "non-string") or RV.refread(tp, r) is None:
             invalid[k] = cls
@@ -781,7 +781,8 @@ def gen_write_list(rng, ctx, n, with_defects):
             picks.append((rng.choice([("unknown-tag", "NoSuch_" + rng.choice(nm)[:8], 1), ("malformed", rng.choice(nm) + "{x}", 1),
                                       ("non-string", rng.choice([5, None]), 1)])))
         elif with_defects:
-            picks.append(("defect", rng.choice(nm) + rng.choice(["[x]", "[", "{-1}", ".99", ".64", ".3"]), rng.choice([1, [1], True])))
+            sfx = rng.choice(["[x]", "[", "{-1}", ".99", ".64", ".3"])
+            picks.append(("valid" if sfx == ".3" else "malformed-index-count-or-bit", rng.choice(nm) + sfx, rng.choice([1, [1], True])))
         else:
             picks.append(("unknown-tag", "Nope", 0))
     if n >= 2 and rng.random() < 0.3:
@@ -789,7 +790,7 @@ def gen_write_list(rng, ctx, n, with_defects):
     args = [(req, val) for _, req, val in picks]
     invalid = {}
     for k, (cls, req, val) in enumerate(picks):
-        if cls in ("unencodable-value", "misaligned-bool-array-write", "malformed", "non-string"):
+        if cls in ("unencodable-value", "misaligned-bool-array-write", "malformed", "non-string", "malformed-index-count-or-bit"):
             invalid[k] = cls
         elif cls in ("unknown-tag", "unknown-member", "index-beyond", "count-beyond"):
             if not isinstance(req, str) or RV.refread(tp, req) is None:
@@ -846,7 +847,7 @@ def scenario_run(R, rng, ctx, n_calls, parse_n, with_defects):
     sizes = [0, 1, 1, 2, 3, 5, 9, 20, 45]
     for _ in range(n_calls):
         n = rng.choice(sizes)
-        reqs, invalid = gen_read_list(rng, ctx, n, with_defects and rng.random() < 0.15)
+        reqs, invalid = gen_read_list(rng, ctx, n, with_defects and rng.random() < 0.3)
         res = check_call(R, ctx, "read", reqs, invalid)
         if res is not None and n:
             check_isolation(R, ctx, "read", reqs, res)
@@ -855,7 +856,7 @@ def scenario_run(R, rng, ctx, n_calls, parse_n, with_defects):
     wsizes = [0, 1, 1, 2, 3, 5, 9, 16]
     for _ in range(n_calls if ok else 0):
         n = rng.choice(wsizes)
-        args, invalid = gen_write_list(rng, ctx, n, with_defects and rng.random() < 0.15)
+        args, invalid = gen_write_list(rng, ctx, n, with_defects and rng.random() < 0.3)
         res = check_call(R, ctx, "write", args, invalid)
         if res is not None and n:
             check_isolation(R, ctx, "write", args, res)
